@@ -51,13 +51,33 @@ def _is_use(p):
     return getattr(p[3], 'query', None) is not None and isinstance(p[3].query, str) and p[3].query.startswith('USE')
 
 
-def h_switch(V, npools=2, v2=False, twice=False):
+def h_switch(V, npools=2, v2=False, twice=False, race=False):
     ccluster.Event = ServedEvent
     cconn.Event = ServedEvent
     ServedEvent.serve = None
     world = RFWorld(V, n_hosts=npools, protocol_version=2 if v2 else 4, pool_class=W.HostConnectionPool if v2 else None)
     session = world.session
     server_ks = {}
+    outcomes = {}
+    if race:
+        # one pre-emption: while the switching thread is at a lock acquire/release (holding no lock), the event loop
+        # thread delivers the answer to a USE that is already on the wire (or the connection fails)
+        from harness import kit
+
+        def loop_thread(*a):
+            pend = [p for p in world.pending() if _is_use(p)]
+            c, stream, tag, msg = pend[V.choice('pre_order', len(pend))]
+            oc = OUTCOMES[V.choice('pre_outcome', len(OUTCOMES))]
+            outcomes[c.idx] = oc
+            V.tag('preempted_with', oc)
+            _answer(world, c, stream, msg, oc, server_ks)
+        pre = kit.Preempter(V, None, loop_thread, only_unlocked=True, enabled=lambda: any(_is_use(p) for p in world.pending()))
+        for c in world.w.conns:
+            c.lock = kit.SchedLock('connection.lock', pre)
+        if not v2:
+            for pool in world.pools.values():
+                pool._lock = kit.SchedLock('pool._lock', pre)
+                pool._stream_available_condition = kit.VirtualCondition(pool._lock)
     conds = {}
     for i, h in enumerate(world.hosts):
         cond = CONDS[V.choice('pool%d' % i, len(CONDS))] if not v2 else CONDS[V.choice('pool%d' % i, 2)]
@@ -76,7 +96,6 @@ def h_switch(V, npools=2, v2=False, twice=False):
         V.tag('pool%d' % i, cond)
     done = []
     ccluster.Session._set_keyspace_for_all_pools(session, 'ks2', lambda errors: done.append(errors))
-    outcomes = {}
     # the USE requests are answered in any order
     for step in range(8):
         pend = [p for p in world.pending() if _is_use(p)]
@@ -138,4 +157,8 @@ def jobs(tier):
         js.append(Job('v3-pools%d' % n, 'h_switch', dict(npools=n, twice=(n < 3)), o))
     for n in (1, 2):
         js.append(Job('v2-pools%d' % n, 'h_switch', dict(npools=n, v2=True, twice=(n < 2)), o))
+    # the event loop answers a USE (or the connection fails) while the switching thread is still working through the pools
+    js.append(Job('race-pools2', 'h_switch', dict(npools=2, race=True), o))
+    if tier != 'quick':
+        js.append(Job('race-pools3', 'h_switch', dict(npools=3, race=True), o))
     return js
